@@ -1,2 +1,208 @@
-//! Harnesses for property C19 (see /verif/properties.jsonl).
+//! Harnesses for property C19 (see /verif/properties.jsonl): NTS server answers are authenticated
+//! and carry valid fresh cookies. Claimed under the ideal-AEAD assumption (DESIGN 2.6): the
+//! session ciphers are `ModelCipher`, `KeySet::{decode_cookie,encode_cookie}` are replaced by
+//! `model_decode_cookie` / `model_encode_cookie` (crate::common).
+use crate::common::*;
 use crate::stubs;
+use ntp_proto::*;
+use std::sync::Arc;
+
+/// Everything symbolic of one NTS exchange besides the request bytes, drawn up front.
+pub struct NtsCase {
+    pub env: Env,
+    /// the cookie is one this server issued under a key it still holds
+    pub cookie_valid: bool,
+    /// the client really produced (associated data, nonce, ciphertext) under the c2s key
+    pub authentic: bool,
+}
+
+#[cfg(kani)]
+impl NtsCase {
+    pub fn any() -> NtsCase {
+        NtsCase { env: Env::any(), cookie_valid: kani::any(), authentic: kani::any() }
+    }
+}
+
+pub fn reset_ghosts(c: &NtsCase, fresh: usize) {
+    unsafe {
+        REQ_AUTHENTIC = c.authentic;
+        COOKIE_VALID = c.cookie_valid;
+        FRESH_COOKIE_LEN = fresh;
+        DEC_CALLS = 0;
+        DEC_OK = 0;
+        DEC_WRONG_KEY = 0;
+        ENC_CALLS = 0;
+        ENC_KEY = 0;
+        COOKIE_DECODES = 0;
+        COOKIE_DECODE_FOREIGN = 0;
+        COOKIE_ENCODES = 0;
+        COOKIE_ENCODE_BAD_KEYS = 0;
+    }
+}
+
+/// Walk `n_uid` echoed unique-identifier fields starting at `pos`; returns the offset after them.
+/// `uids` = (offset of payload in request, payload length) in request order.
+fn walk_uid_echoes(resp: &[u8], n: usize, mut pos: usize, req: &[u8], uids: &[(usize, usize)]) -> usize {
+    let mut k = 0;
+    while k < uids.len() {
+        let (off, plen) = uids[k];
+        assert!(pos + 4 <= n, "answer holds the echoed unique identifier");
+        assert!(rd16(resp, pos) == EF_UID, "answer field is a unique identifier");
+        let l = rd16(resp, pos + 2) as usize;
+        assert!(l >= 4 + plen && l % 4 == 0 && pos + l <= n, "echoed field is well-formed");
+        assert!(same(resp, pos + 4, req, off, plen), "unique identifier echoed unchanged");
+        assert!(all_zero(resp, pos + 4 + plen, l - 4 - plen), "padding of the echoed field is zero");
+        pos += l;
+        k += 1;
+    }
+    pos
+}
+
+/// One NTPv4 NTS exchange for the given (concrete) layout; all C19 assertions.
+/// `fresh` = length of the cookies the key set currently issues.
+pub fn nts_v4_exchange(lay: NtsLayout, fresh: usize, c: &NtsCase, msg: &mut [u8], buf: &mut [u8]) {
+    build_nts_request(msg, &lay, 4);
+    reset_ghosts(c, fresh);
+    let keyset = empty_keyset();
+    let keyset_ptr = Arc::as_ptr(&keyset);
+    let mut server = c.env.server(v5::BloomFilter::new(), keyset);
+    let mut stats = RecStats::default();
+    let buf_ptr = buf.as_ptr();
+    let out = handle_once(&mut server, &c.env, msg, buf, &mut stats);
+    std::mem::forget(server);
+
+    let env = &c.env;
+    let auth_ok = c.cookie_valid && c.authentic;
+    let is_client = true; // template: client mode
+    let (dec_calls, dec_ok, dec_wrong, enc_calls, enc_key, enc_aad_ptr, enc_aad_len, cookie_encodes, bad_keys, enc_keyset, foreign) = unsafe {
+        (DEC_CALLS, DEC_OK, DEC_WRONG_KEY, ENC_CALLS, ENC_KEY, ENC_AAD_PTR, ENC_AAD_LEN, COOKIE_ENCODES, COOKIE_ENCODE_BAD_KEYS, COOKIE_ENCODE_KEYSET, COOKIE_DECODE_FOREIGN)
+    };
+    assert!(dec_wrong == 0, "the request is only ever decrypted with the cookie's c2s key");
+    assert!(foreign == 0, "only the request's cookie field is decoded");
+    assert!(dec_ok as usize <= auth_ok as usize, "model sanity: decrypt succeeds only for an authentic request with a valid cookie");
+
+    let uid_main = (lay.o_uid() + 4, lay.uid);
+    let uid_trail = (lay.o_trailing() + 4, if lay.trailing > 0 { lay.trailing - 4 } else { 0 });
+
+    let n = match out {
+        None => {
+            // C19 does not require an answer; but an authentic client request from an allowed
+            // client must not be dropped (otherwise every assertion below would be vacuous).
+            assert!(!(auth_ok && is_client), "authentic NTS client request is answered");
+            return;
+        }
+        Some(n) => n,
+    };
+    let resp = &buf[..n];
+
+    if !auth_ok {
+        // ---- authentication failed: NAK, or DENY by policy; never time, nothing encrypted or issued
+        let expect = if env.deny_client { Kind::Deny } else { Kind::Nak };
+        check_header_v34(resp, msg, expect, env);
+        assert!(resp[1] == 0 && rd64(resp, 32) == 0 && rd64(resp, 40) == 0, "C19: no time in the answer to an unauthenticated request");
+        assert!(enc_calls == 0, "nothing is encrypted for an unauthenticated request");
+        // fields: only echoes of the request's unique identifiers
+        let pos = if lay.trailing > 0 {
+            walk_uid_echoes(resp, n, 48, msg, &[uid_main, uid_trail])
+        } else {
+            walk_uid_echoes(resp, n, 48, msg, &[uid_main])
+        };
+        assert!(pos == n, "NAK/DENY carries nothing but unique-identifier echoes (no cookie, nothing from the undecryptable part)");
+        assert!(stats.nts || env.deny_client, "statistics: counted as NTS");
+        kani::cover!(expect == Kind::Nak && !c.cookie_valid, "NAK: cookie does not decode");
+        kani::cover!(expect == Kind::Nak && c.cookie_valid && !c.authentic, "NAK: cookie fine, authentication tag wrong");
+        kani::cover!(expect == Kind::Deny, "DENY for an unauthenticated request of a denied client");
+        return;
+    }
+
+    // ---- authenticated request
+    assert!(is_client, "only client-mode requests get an authenticated answer");
+    let expect = if env.deny_client { Kind::Deny } else { Kind::Time };
+    check_header_v34(resp, msg, expect, env);
+    // authenticated part: the echo of the authenticated unique identifier, nothing else
+    let pos = walk_uid_echoes(resp, n, 48, msg, &[uid_main]);
+    // encrypted field = last field of the answer
+    assert!(pos + 8 <= n && rd16(resp, pos) == EF_ENCRYPTED, "answer carries the NTS authenticator field after the echoes");
+    let total = rd16(resp, pos + 2) as usize;
+    let nonce_len = rd16(resp, pos + 4) as usize;
+    let ct_len = rd16(resp, pos + 6) as usize;
+    assert!(pos + total == n, "authenticator is the last field: everything before it is associated data");
+    assert!(nonce_len == NONCE_LEN && ct_len >= TAG_LEN && total == 8 + nonce_len + ((ct_len + 3) & !3), "authenticator framing");
+    // the authenticator was produced by exactly one encrypt call, under the cookie's s2c key, over
+    // exactly the answer's prefix, and what it authenticated is what is being sent
+    assert!(enc_calls == 1, "exactly one AEAD encryption per answer");
+    assert!(enc_key == S2C_ID, "C19: answer is authenticated with the cookie's server-to-client key");
+    assert!(enc_aad_ptr == buf_ptr && enc_aad_len == pos, "C19: associated data = the answer up to the authenticator field");
+    let mut i = 0;
+    let mut same_prefix = true;
+    while i < pos && i < 128 {
+        same_prefix &= unsafe { ENC_AAD_COPY[i] } == resp[i];
+        i += 1;
+    }
+    assert!(pos <= 128 && same_prefix, "the authenticated prefix is the prefix that is sent");
+    let nonce_at = pos + 8;
+    let ct_at = nonce_at + nonce_len;
+    let mut i = 0;
+    let mut model_out = true;
+    while i < NONCE_LEN {
+        model_out &= resp[nonce_at + i] == ENC_NONCE_BYTE;
+        i += 1;
+    }
+    let mut i = 0;
+    while i < TAG_LEN {
+        model_out &= resp[ct_at + ct_len - TAG_LEN + i] == S2C_ID;
+        i += 1;
+    }
+    assert!(model_out, "nonce and tag in the answer are the ones the s2c encryption produced");
+
+    // plaintext: fresh cookies only
+    let pt_end = ct_at + ct_len - TAG_LEN;
+    let mut p = ct_at;
+    let mut k: usize = 0;
+    let mut last_seq: u8 = 0;
+    while p < pt_end && k < 9 {
+        assert!(p + 4 <= pt_end && rd16(resp, p) == EF_COOKIE, "encrypted part of the answer holds cookies only");
+        let l = rd16(resp, p + 2) as usize;
+        assert!(l == 4 + ((fresh + 3) & !3) && p + l <= pt_end, "cookie field holds exactly one cookie of the issued length");
+        assert!(resp[p + 4] == 0xC0 && resp[p + 6] == S2C_ID && resp[p + 7] == C2S_ID,
+            "C19: cookie was issued by encode_cookie for the request's session keys");
+        assert!(resp[p + 5] > last_seq, "every cookie comes from its own encode_cookie call (fresh, never repeated)");
+        last_seq = resp[p + 5];
+        assert!(all_zero(resp, p + 8, l - 8), "rest of the model cookie and padding");
+        p += l;
+        k += 1;
+    }
+    assert!(p == pt_end, "cookies cover the plaintext exactly");
+    // C19 bounds: at most one fresh cookie per request cookie/placeholder that is large enough, at most 8
+    let holders = (lay.cookie >= fresh) as usize + if lay.placeholder >= fresh { lay.slots() - 1 } else { 0 };
+    assert!(k <= 8, "C19: never more than eight cookies");
+    assert!(k <= lay.slots(), "C19: at most one fresh cookie per cookie or placeholder in the request");
+    assert!(k <= holders, "C19: no fresh cookie is larger than the field it replaces");
+    if expect == Kind::Deny {
+        assert!(k == 0, "no cookies in a DENY");
+    }
+    assert!(bad_keys == 0, "C19: cookies are encoded for the same session keys as the request's cookie");
+    assert!(cookie_encodes == 0 || enc_keyset == keyset_ptr, "C19: cookies are encoded under the server's current key set");
+    assert!(stats.nts, "statistics: counted as NTS");
+    kani::cover!(expect == Kind::Time && k == holders && k > 0, "time answer with the maximum number of fresh cookies");
+    kani::cover!(expect == Kind::Time && k == 0, "time answer without cookies");
+    kani::cover!(expect == Kind::Deny, "authenticated DENY");
+}
+
+macro_rules! c19_v4 {
+    ($name:ident, $unwind:expr, $lay:expr, $fresh:expr) => {
+        srv_harness! {
+            #[kani::unwind($unwind)]
+            fn $name() {
+                const LAY: NtsLayout = $lay;
+                let c = NtsCase::any();
+                let mut msg: [u8; LAY.len()] = kani::any();
+                let mut buf = [0u8; 1024];
+                nts_v4_exchange(LAY, $fresh, &c, &mut msg, &mut buf);
+            }
+        }
+    };
+}
+
+// quick: one cookie, no placeholder
+c19_v4!(c19_nts_p0, 110, NtsLayout { uid: 32, cookie: 104, placeholders: 0, placeholder: 104, nonce: 16, inner: 0, trailing: 0 }, 104);
